@@ -483,3 +483,18 @@ def load(want_nc=False):
 def load_nc():
     snap = build(want_nc=True)
     return Program(snap, "nc")
+
+
+def build_control():
+    """compile the positive-control crate with the same driver; returns the directory with its facts"""
+    build_driver()
+    out = os.path.join(CACHE, "control-units")
+    shutil.rmtree(out, ignore_errors=True)
+    os.makedirs(out)
+    tgt = os.path.join(CACHE, "control-tgt")
+    shutil.rmtree(tgt, ignore_errors=True)
+    env = _cargo_env(out, tgt)
+    r = subprocess.run("cargo +nightly check --offline", shell=True, cwd=os.path.join(VERIF, "selftest", "control"), env=env, stdout=subprocess.PIPE, stderr=subprocess.PIPE, text=True)
+    if r.returncode != 0:
+        raise FactsError("control crate failed to build: " + r.stderr[-1500:])
+    return out
